@@ -462,6 +462,60 @@ def check_holdpin(rep, prog):
         raise facts.AnalysisBroken('R-holdpin found only %d hold pins' % n)
 
 
+
+def check_own_pipe(rep, prog):
+    """a pipe a function allocates into a local variable is, on every path, released, stored into a structure / list,
+    handed to a function that takes it, or returned"""
+    from upv import own
+    rep.rule('R-own-pipe', 'every function that obtains a pipe from an allocation call (struct upipe * result of upipe_*_alloc*) into a local variable: on every '
+             'path the reference is exactly once released (upipe_release), stored into a structure or list, handed to a function that takes it '
+             '(upipe_xfer_alloc takes the remote pipe; store_bin_input / store_bin_output / store_<inner> keep it) or returned; not used after release '
+             '(ownership typestate with callee outcome summaries; allocation-failure paths are observations)')
+    inputs = ownrule.input_functions(prog)
+    table = dict(own.TABLE)
+    alias = dict(own.ALIAS_FNS)
+    own.TABLE[('upipe_release', 0)] = own.CONSUME
+    own.TABLE[('upipe_xfer_alloc', 2)] = own.CONSUME     # upipe_transfer.h: upipe_remote belongs to the callee
+    own.ALIAS_FNS['upipe_to_uchain'] = 0
+    own.ALIAS_FNS['upipe_from_uchain'] = 0
+    n = 0
+    try:
+        W = own.Own(prog, inputs, {}, tracked=('struct upipe *',))
+        for uname, u in sorted(prog.units.items()):
+            for fn in sorted(u.funcs.values(), key=lambda f: f.name):
+                if not fn.blocks or not fn.inmain:
+                    continue
+                if not any(x.get('k') == 'call' and x.get('t') == 'struct upipe *' and own.PRODUCER_RE.search(x.get('fn') or '') for _, _, x in fn.nodes()):
+                    continue
+                n += 1
+                res = W.explore(u, fn, owned_params=())
+                if not res['decided']:
+                    rep.add('R-own-pipe', fn.name, UNDECIDED, fn.loc, why=res['undecided'][:2])
+                    continue
+                seen = set()
+                for v in res['violations']:
+                    if v.armed():
+                        key = (fn.name, v.kind, v.var)
+                        if key in seen:
+                            continue
+                        seen.add(key)
+                        rep.add('R-own-pipe', '%s:%s:%s' % key, VIOLATED, '%s:%s' % (fn.file, v.line), what=v.detail, path_blocks=v.path[:40])
+                    else:
+                        rep.add('R-own-pipe', '%s:%s:%s@%s' % (fn.name, v.kind, v.var, v.line), OOS, '%s:%s' % (fn.file, v.line),
+                                why='only on a failure path (allocation failure: %s; failed calls: %s)' % (v.af, sorted(v.err)), what=v.detail)
+                if res['esc_leaks'] and not seen:
+                    rep.add('R-own-pipe', fn.name, UNDECIDED, fn.loc, why='pipe handed to a function of another translation unit, then not released: %s' % sorted(res['esc_leaks'])[:3])
+                elif not seen:
+                    rep.add('R-own-pipe', fn.name, HOLDS, fn.loc, states=res['states'])
+    finally:
+        own.TABLE.clear()
+        own.TABLE.update(table)
+        own.ALIAS_FNS.clear()
+        own.ALIAS_FNS.update(alias)
+    if n < 60:
+        raise facts.AnalysisBroken('R-own-pipe found only %d functions allocating pipes' % n)
+
+
 def run(tier='quick', repo=None):
     repo = repo or facts.REPO
     rep = Report(PROP, tier)
@@ -479,6 +533,7 @@ def run(tier='quick', repo=None):
     check_dangle(rep, prog)
     check_core(rep, prog)
     check_holdpin(rep, prog)
+    check_own_pipe(rep, prog)
     from upv import provide
     nprov = provide.run(rep, prog)
     if nprov < 30:
